@@ -181,6 +181,7 @@ struct Pc {
     steps: Vec<M>,
     op_end: Vec<usize>, // exclusive end index of each op
     pc: usize,
+    op: usize, // index of the call the real thread is in
 }
 impl Pc {
     fn new(ops: &[Op]) -> Pc {
@@ -190,10 +191,10 @@ impl Pc {
             steps.extend(prog(o));
             op_end.push(steps.len());
         }
-        Pc { steps, op_end, pc: 0 }
+        Pc { steps, op_end, pc: 0, op: 0 }
     }
     fn cur_end(&self) -> usize {
-        self.op_end.iter().cloned().find(|e| *e > self.pc).unwrap_or(self.steps.len())
+        self.op_end.get(self.op).cloned().unwrap_or(self.steps.len())
     }
     fn through(&mut self, pred: impl Fn(M) -> bool) -> usize {
         let end = self.cur_end();
@@ -229,9 +230,13 @@ impl Pc {
             "cont.before_setnext" => self.upto(|m| m == M::SetNext),
             "cont.setnext" => self.through(|m| m == M::SetNext),
             "cont.h_opdone" => {
+                // the call returned.  When it returned early (`?` in load_next_seq_for: the step
+                // about to run is Choose) the model's early return skips the rest of the call, so
+                // exactly that one step is granted.
                 let end = self.cur_end();
-                let n = end - self.pc;
+                let n = if self.pc < end && self.steps[self.pc] == M::Choose { 1 } else { end - self.pc };
                 self.pc = end;
+                self.op += 1;
                 n
             }
             "done" => {
